@@ -197,7 +197,8 @@ def run(ctx: Ctx) -> RuleResult:
     if not ok:
         res.finding(ft, ft.node, 'the missing-action case of the LALR driver no longer raises UnexpectedToken for the offending token', construct='lalr-unexpected')
     pfs = repo.func('lark.parsers.lalr_parser:_Parser.parse_from_state')
-    ok = has_pat(pfs.body_nodes(), r"Token.new_borrow_pos('\x24END', '', $t) if $t is not None else $$d")
+    from ..exprs import match_cond
+    ok = bool(match_cond(pfs.body_nodes(), '$t is not None', r"Token.new_borrow_pos('\x24END', '', $t)", '$$d'))
     res.ob('%s %s' % (pfs.loc(), pfs.qual), '$END borrows the coordinates of the last token whenever there is one', ok)
     if not ok:
         res.finding(pfs, pfs.node, 'the end token does not borrow the last token\'s coordinates under `token is not None`', construct='end-borrow')
